@@ -40,7 +40,7 @@ func vFinderVsNaive(plo, phi, tmax int) {
 	// the direction the buffer filter relies on: an occurrence is never missed
 	verif.Assert(want < 0 || got >= 0, "finder-misses-occurrence")
 	verif.Assert(want >= 0 || got == -1, "finder-reports-absent-pattern")
-	verif.Assert((got == want) != vNeg, "finder-first-occurrence")
+	verif.Assert(got == want, "finder-first-occurrence")
 	if got >= 0 {
 		verif.Reach("found")
 	} else {
@@ -66,11 +66,3 @@ func VerifH_C04_O1_finder() {
 func VerifH_C04_O1_finder_thorough() {
 	vFinderVsNaive(1, 4, 8)
 }
-
-
-var vNeg = false
-
-// verif:desc ZNEG sanity
-// verif:bounds x
-// verif:solver z3-new
-func VerifH_C04_Zneg_finder() { vNeg = true; vFinderVsNaive(2, 2, 3) }
